@@ -112,7 +112,7 @@ class Fn:
         self.crate = crate
         self.name = name           # qualified (see Program)
         self.local_name = d['fn']
-        self.kind = d.get('kind', '')
+        self.kind = d.get('kind', '').split(' ')[0].split('{')[0]
         self.vis = d.get('vis', '')
         self.parent = d.get('parent', '')
         self.is_async = d.get('async', False)
@@ -302,6 +302,27 @@ class Fn:
                     out.append((c, lp[0], lp[1]))
         return out
 
+    def _is_discr_of(self, operand, local):
+        """operand is (a copy of) `discriminant(_local)` — the discriminant of the local itself, not of one of its fields"""
+        seen = set()
+        cur = op_local(operand)
+        while cur is not None and cur not in seen:
+            seen.add(cur)
+            d = self.single_def(cur)
+            if d is None:
+                return False
+            bb, idx, kind, node = d
+            if kind != 'stmt':
+                return False
+            r = node['r']
+            if r['rv'] == 'discr':
+                return r['pl']['l'] == local and not r['pl']['p']
+            if r['rv'] == 'use' and is_place(r['ops'][0]) and not r['ops'][0]['pl']['p']:
+                cur = r['ops'][0]['pl']['l']
+                continue
+            return False
+        return False
+
     def classify_loop_exits(self, next_call, body):
         """(exhaustion_edges, other_edges) of a loop driven by next_call; edges into `unreachable` blocks are dropped"""
         normal, other = [], []
@@ -314,11 +335,9 @@ class Fn:
                 sw = self.blocks[self.pred[src][0]]['term']
             elif t and t['t'] == 'switch':
                 sw = t
-            if sw is not None and sw['t'] == 'switch':
-                org = provenance(self, sw['discr'])
-                if next_call.dst['l'] in org.locals and not [c for c in org.calls if c is not next_call]:
-                    normal.append((src, dst))
-                    continue
+            if sw is not None and sw['t'] == 'switch' and self._is_discr_of(sw['discr'], next_call.dst['l']):
+                normal.append((src, dst))
+                continue
             other.append((src, dst))
         return normal, other
 
@@ -567,6 +586,59 @@ def provenance(fn, start, pass_through=PASS_THROUGH, follow_all_call_args=False,
                         for a in c.args:
                             push_op(a)
     return org
+
+
+def deep_origins(prog, fn, start, depth=3, _seen=None, follow_all=True):
+    """provenance that continues through parameters into every product caller's argument and through closure /
+    coroutine captures into the parent's captured operand. Returns a merged Origins (params = unresolved roots)."""
+    _seen = _seen if _seen is not None else set()
+    org = provenance(fn, start, follow_all_call_args=follow_all)
+    out = Origins()
+    out.fields |= org.fields
+    out.calls += org.calls
+    out.consts += org.consts
+    out.binops += org.binops
+    out.downcasts |= org.downcasts
+    out.locals |= {(fn.name, l) for l in org.locals}
+    if depth <= 0:
+        out.params |= {(fn.name, p) for p in org.params}
+        return out
+    is_clos = fn.kind in ('Closure', 'SyntheticCoroutineBody')
+    for p in org.params:
+        if is_clos and p == 1:
+            continue
+        key = (fn.name, p)
+        if key in _seen:
+            continue
+        _seen.add(key)
+        callers = [c for c in prog.callers.get(fn.name, []) if not is_testsupport(c.fn.name)]
+        if not callers:
+            out.params.add(key)
+        for c in callers:
+            if p - 1 < len(c.args):
+                sub = deep_origins(prog, c.fn, c.args[p - 1], depth - 1, _seen, follow_all)
+                _merge(out, sub)
+    if is_clos and org.upvars:
+        parent = prog.by_crate[fn.crate].get(fn.parent)
+        if parent is not None:
+            for b in parent.blocks.values():
+                for s in b['stmts']:
+                    if s['r']['rv'] == 'agg' and s['r']['kind'].split(':', 1)[-1] == fn.local_name:
+                        for n, o in enumerate(s['r']['ops']):
+                            if str(n) in org.upvars:
+                                sub = deep_origins(prog, parent, o, depth - 1, _seen, follow_all)
+                                _merge(out, sub)
+    return out
+
+
+def _merge(a, b):
+    a.fields |= b.fields
+    a.calls += b.calls
+    a.consts += b.consts
+    a.binops += b.binops
+    a.downcasts |= b.downcasts
+    a.locals |= b.locals
+    a.params |= b.params
 
 
 # ------------------------------------------------------------------------------------------------
